@@ -62,8 +62,12 @@ func CropFloat3Attribute(m modeling.Mesh, attr string, boundingBox geometry.AABB
 		v1[attr] = make([]float64, 0)
 	}
 
+	// Walk the points through the index buffer so that unreferenced vertices
+	// are not resurrected and the order of the surviving points is kept
 	decidingAttribute := m.Float3Attribute(attr)
-	for i := 0; i < decidingAttribute.Len(); i++ {
+	indices := m.Indices()
+	for p := 0; p < indices.Len(); p++ {
+		i := indices.At(p)
 		if !boundingBox.Contains(decidingAttribute.At(i)) {
 			continue
 		}
